@@ -136,6 +136,14 @@ def enc(v, top: bool = True) -> str:
     raise TypeError(f"cannot encode {type(v)}")
 
 
+def label(k) -> str:
+    """a printable, total label for a dict index (indexes of in-memory signature maps need not be strings)"""
+    try:
+        return enc(k)
+    except Exception:  # noqa: BLE001
+        return "<" + type(k).__name__ + ":" + repr(k)[:60] + ">"
+
+
 def _codes_to_str(s: str) -> str:
     if not s:
         return ""
